@@ -116,6 +116,10 @@ pub trait Shape: Flat + 'static {
     fn rust_default() -> Option<Value> {
         None
     }
+    /// does the type implement `flatty::Portable`?  (generated definitions only: probed by autoref specialisation, see `PortableProbe`)
+    fn impls_portable() -> bool {
+        false
+    }
     fn n_children(&self) -> usize {
         0
     }
@@ -886,6 +890,22 @@ impl<T: Shape + ?Sized, L: LenShape> Shape for FlexVec<T, L> {
 pub type ViewFn<'x> = &'x mut dyn FnMut(&dyn ShapeDyn);
 pub type ViewMutFn<'x> = &'x mut dyn FnMut(&mut dyn ShapeDynMut);
 
+/// Autoref-specialisation probe: `(&PortableProbe::<X>(PhantomData)).impls_portable()` is `true` iff the concrete
+/// type `X` implements `flatty::Portable` (the `ProbeYes` method needs one auto-reference less than `ProbeNo`'s).
+pub struct PortableProbe<T: ?Sized>(pub core::marker::PhantomData<T>);
+pub trait ProbeYes {
+    fn impls_portable(&self) -> bool {
+        true
+    }
+}
+impl<T: flatty::Portable + ?Sized> ProbeYes for PortableProbe<T> {}
+pub trait ProbeNo {
+    fn impls_portable(&self) -> bool {
+        false
+    }
+}
+impl<T: ?Sized> ProbeNo for &PortableProbe<T> {}
+
 pub struct VT {
     pub name: &'static str,
     pub desc: Desc,
@@ -896,6 +916,7 @@ pub struct VT {
     pub is_msg: bool,
     pub default_probe: bool,
     pub rust_default: fn() -> Option<Value>,
+    pub impls_portable: bool,
     pub validate: fn(&[u8]) -> Result<(), Error>,
     pub from_bytes: fn(&[u8], ViewFn) -> Result<(), Error>,
     pub from_mut_bytes: fn(&mut [u8], ViewMutFn) -> Result<(), Error>,
@@ -974,6 +995,7 @@ pub fn vt<T: Shape + ?Sized>(name: &'static str, static_size: Option<usize>) -> 
         is_msg: false,
         default_probe: T::default_emp(ProbeK).is_some(),
         rust_default: T::rust_default,
+        impls_portable: T::impls_portable(),
         validate: vt_validate::<T>,
         from_bytes: vt_from_bytes::<T>,
         from_mut_bytes: vt_from_mut_bytes::<T>,
